@@ -585,6 +585,18 @@ func c08Plan(c *Ctx, planNo int, T time.Duration) {
 				c.Res.Inconcl(fmt.Sprintf("the farm noticed a request %.0f ms after the call got its turn (host overloaded): a failed call is not judged", float64(m.recv-turn)/1e6))
 				continue
 			}
+			if !fixed && time.Duration(cl.end-cl.start) > T+T/3 {
+				c.Res.Inconcl(fmt.Sprintf("a call from bind port 0 failed after %.0f ms (T=%v): its goroutine was kept from running when its deadline passed (host overloaded): not judged", float64(cl.end-cl.start)/1e6, T))
+				continue
+			}
+			if !fixed && noEphemeralPort(cl.out.Err) {
+				c.Res.Inconcl("the kernel had no free ephemeral port for a call from bind port 0 (sockets in TIME_WAIT): " + cl.out.Err)
+				continue
+			}
+			if m.recv < cl.start {
+				c.Res.Inconcl("the arrival recorded for a failed call predates the call (another call's request): not judged")
+				continue
+			}
 			key := "C08:lost-reply:" + cl.ctrl.path
 			if fixed && time.Duration(m.recv-cl.start) > 20*time.Millisecond {
 				key = "C08:early-timeout-after-queueing"
@@ -1023,6 +1035,9 @@ func c08DiscoveryAtDeadline(c *Ctx) {
 	const N = 900
 	layout := rm.FindOp("GetDevice").ReplyLayout()
 	replies := make([][]byte, N)
+	var round atomic.Uint32 // every discovery is answered by a site of its own (serial numbers 0x0c200000 + round*1024 + i): what is still on its
+	// way from the previous site when the next discovery starts can be told apart
+	var streaming sync.WaitGroup
 	for i := range replies {
 		vals := rm.Vals{"SerialNumber": rm.Val{K: rm.Serial, U: uint64(0x0c200000 + i)}, "IpAddress": rm.IPVal(10, 0, byte(2+i/250), byte(1+i%250)), "SubnetMask": rm.IPVal(255, 255, 0, 0), "Gateway": rm.IPVal(10, 0, 0, 254),
 			"MacAddress": rm.Val{K: rm.MAC, B: []byte{0, 1, 2, 4, byte(i >> 8), byte(i)}}, "Version": rm.UVal(rm.Version, 0x0892), "Date": rm.DateVal(2021, 1+i%12, 1+i%28)}
@@ -1033,17 +1048,28 @@ func c08DiscoveryAtDeadline(c *Ctx) {
 			return nil
 		}
 		out := make([]farm.Action, 0, N)
+		base := 0x0c200000 + round.Load()*1024
 		for i := range replies {
 			d := 30 * time.Microsecond
 			if i == 0 {
 				d = T - 18*time.Millisecond
 			}
-			out = append(out, farm.Action{Delay: d, Data: replies[i]})
+			b := append([]byte{}, replies[i]...)
+			s := base + uint32(i)
+			b[4], b[5], b[6], b[7] = byte(s), byte(s>>8), byte(s>>16), byte(s>>24)
+			out = append(out, farm.Action{Delay: d, Data: b})
 		}
+		// a last action that tells the monitor the stream is over
+		streaming.Add(1)
+		go func() {
+			defer streaming.Done()
+			time.Sleep(T + 60*time.Millisecond)
+		}()
 		return out
 	})
 	rounds := c.N(10, 40)
 	for k := 0; k < rounds; k++ {
+		round.Store(uint32(k))
 		u := mkClient(ClientCfg{Bind: "127.0.0.1:0", Broadcast: bc.Addr, Timeout: T, Debug: k%2 == 0})
 		var devs []types.Device
 		var err error
@@ -1068,7 +1094,12 @@ func c08DiscoveryAtDeadline(c *Ctx) {
 		default:
 			last := -1
 			for _, dv := range devs {
-				i := int(uint32(dv.SerialNumber)) - 0x0c200000
+				i := int(uint32(dv.SerialNumber)) - 0x0c200000 - k*1024
+				if i < 0 && i >= -k*1024 {
+					// the tail of an earlier round's stream that reached this round's socket (the kernel handed out the same port again)
+					c.Res.Count("discovery-at-deadline:entries-from-an-earlier-stream(not judged)", 1)
+					continue
+				}
 				if i < 0 || i >= N || fmt.Sprint(dv.Address.Addr()) != fmt.Sprintf("10.0.%d.%d", 2+i/250, 1+i%250) {
 					c.Res.Violate("C08:discovery-garbled", fmt.Sprintf("GetDevices (replies still arriving at the deadline) returned an entry nobody sent: serial %d address %v", dv.SerialNumber, dv.Address), nil, int64(k))
 					break
@@ -1081,6 +1112,8 @@ func c08DiscoveryAtDeadline(c *Ctx) {
 			}
 		}
 		time.Sleep(50 * time.Millisecond) // the rest of the stream goes nowhere
+		fm.WaitIdle(time.Second)
+		streaming.Wait()
 	}
 }
 
@@ -1182,4 +1215,11 @@ func c08SharedArguments(c *Ctx) {
 	if fmt.Sprint(shared) != fmt.Sprint(want) {
 		c.Res.Violate("C08:argument-overwritten", fmt.Sprintf("SetDoorPasscodes called concurrently with sections of one list: the list is %v afterwards, it was %v", shared, want), nil, -8)
 	}
+}
+
+// noEphemeralPort: a socket that is bound to port 0 gets its port from the kernel; when thousands of connections to one endpoint
+// sit in TIME_WAIT the kernel can run out ("bind: address already in use" / "cannot assign requested address" on a bind to port 0).
+// That is the machine's state, not the library's doing.
+func noEphemeralPort(err string) bool {
+	return strings.Contains(err, ":0->") && (strings.Contains(err, "address already in use") || strings.Contains(err, "cannot assign requested address"))
 }
